@@ -60,6 +60,47 @@ def write_replay(prop, name, payload):
     return path
 
 
+
+def repo_callees_not_under_contract(S):
+    """functions of the repository that the functions under contract call (by name, from the AST) and that are neither under
+    contract nor inlined in this run: the contracts treat them through models / assumed contracts -- unverified surroundings"""
+    import ast as _ast
+    import glob as _glob
+    from .engine import REPO, find_function
+    index = {}            # simple name -> set of qualified names defined in the repository
+    for path in _glob.glob(os.path.join(REPO, "AegeanTools", "*.py")):
+        mod = os.path.basename(path)[:-3]
+        try:
+            tree = _ast.parse(open(path).read())
+        except Exception:
+            continue
+        for node in tree.body:
+            if isinstance(node, _ast.FunctionDef):
+                index.setdefault(node.name, set()).add("%s.%s" % (mod, node.name))
+            elif isinstance(node, _ast.ClassDef):
+                for st in node.body:
+                    if isinstance(st, _ast.FunctionDef):
+                        index.setdefault(st.name, set()).add("%s.%s.%s" % (mod, node.name, st.name))
+    covered = set()
+    for info in S.functions.values():
+        covered.add(info["qualname"].split(".")[-1])
+        for q in info.get("inlined", []):
+            covered.add(q.split(".")[-1])
+    out = set()
+    for info in S.functions.values():
+        try:
+            node = find_function(info["file"], info["qualname"])
+        except Exception:
+            continue
+        for n in _ast.walk(node):
+            if isinstance(n, _ast.Call):
+                f = n.func
+                nm = f.id if isinstance(f, _ast.Name) else (f.attr if isinstance(f, _ast.Attribute) else None)
+                if nm and nm in index and nm not in covered and not nm.startswith("__"):
+                    out.update(index[nm])
+    return sorted(out)
+
+
 def main(argv=None):
     import argparse
     ap = argparse.ArgumentParser()
@@ -256,6 +297,10 @@ def main(argv=None):
                       "verdict": "valid" if all(v == "valid" for v in vs) else ",".join(sorted(set(vs))),
                       "seconds": round(sum(o.meta['result']['seconds'] for o in lst), 3)})
 
+    try:
+        callees_outside = repo_callees_not_under_contract(S)
+    except Exception as e:        # never let the report break a check
+        callees_outside = ["(not computed: %r)" % (e,)]
     evidence = {
         "property_id": prop, "tier": tier, "seed": seed, "level": "proof",
         "coverage": {
@@ -271,6 +316,7 @@ def main(argv=None):
             "per_backend": {k: {"vcs": v[0], "seconds": round(v[1], 3)} for k, v in per_backend.items()},
             "solver_wall_s": round(solve_s, 3),
             "unmodelled_names": sorted(S.unmodelled),
+            "repo_callees_not_under_contract": callees_outside,
             "external_names_resolved": name_res.get("checked", 0),
             "native_checks": monitors,
             "guards": {"errors": guard_errors,
